@@ -42,7 +42,7 @@ ASSUMPTIONS = [
     "receivers use identity equality; whether a raised exception is cached is not judged",
     "the hit obligation counts every other key called in between (also failing calls), i.e. it is slightly weaker than exact LRU",
 ]
-EXHAUSTIVE_MEANS = "all histories over 3 keys + 2 clock advances up to the stated length for the stated configurations"
+EXHAUSTIVE_MEANS = "all histories over 3 keys + 2 clock advances up to the stated length for the stated configurations; for limits 3 and 4 every call history over limit+1 pairwise-unequal keys up to renaming (quick: length <=7; thorough: <=8 / <=9, plus limit 3 with expiration and two clock advances at every pair of positions of 6-call histories)"
 REQUIRED_CLASSES = ["hit", "eviction", "expiry", "typed-twins-in-play", "method-variant"]
 
 ALPHA = [1, 1.0, True, "1", 2, 2.0, (1,), None]
@@ -370,6 +370,39 @@ def enumerate_cases(tier):
         for n in range(2, maxlen + 1):
             for ops in itertools.product(alphabet, repeat=n):
                 yield {"variant": v, "limit": l, "exp": e, "ops": list(ops)}
+    # limits 3 and 4 need limit+1 distinct keys before anything is evicted: every call history over limit+1 keys up to
+    # renaming of the keys (restricted growth strings), no clock advance
+    distinct = [["pos", i, 0] for i in (0, 3, 4, 6, 7)]  # 1, "1", 2, (1,), None: pairwise unequal
+    for l, maxlen in ((3, 7), (4, 7)) if tier == "quick" else ((3, 8), (4, 9)):
+        for n in range(l + 1, maxlen + 1):
+            for word in _rgs(n, l + 1):
+                if max(word) < l:
+                    continue  # fewer than limit+1 keys: nothing can be evicted
+                for v in VARIANTS:
+                    yield {"variant": v, "limit": l, "exp": None, "ops": [{"o": "call", "r": 0, "form": distinct[k], "raise": False} for k in word]}
+    if tier != "quick":
+        # limit 3 with an expiration and two clock advances at every pair of positions (expired entries leave gaps,
+        # hits reorder entries of different age)
+        for word in _rgs(6, 4):
+            for i in range(1, 6):
+                for j in range(i, 6):
+                    for d1, d2 in ((1.5, 1.5), (1.5, 0.5), (0.5, 1.5), (1.25, 1.0)):
+                        calls = [{"o": "call", "r": 0, "form": distinct[k], "raise": False} for k in word]
+                        ops = calls[:i] + [{"o": "adv", "dt": d1}] + calls[i:j] + [{"o": "adv", "dt": d2}] + calls[j:]
+                        yield {"variant": "sync" if (i + j) % 2 else "async", "limit": 3, "exp": 2.5, "ops": ops}
+
+
+def _rgs(n, kmax):
+    """restricted growth strings of length n over at most kmax symbols: call histories up to renaming of keys"""
+
+    def rec(seq, m):
+        if len(seq) == n:
+            yield tuple(seq)
+            return
+        for sym in range(min(m + 1, kmax)):
+            yield from rec([*seq, sym], max(m, sym + 1))
+
+    return rec([], 0)
 
 
 def budget(tier):
